@@ -175,6 +175,21 @@ CLAIMED.update({
 })
 
 CLAIMED.update({
+ "C03": dict(category="other",
+    text="The marshal / parse half, per message class: for every valid message object m of a class under contract "
+         "(ids in 0..2^53, URIs of the WAMP grammar, every combination of present / absent optional fields) "
+         "Cls.parse(m.marshal()) is an instance of the same class with equal values in every field. The real marshal, "
+         "parse, constructor, property getters, check_or_raise_extra and _validate_kwargs are inlined from the current "
+         "source; the id / URI validators enter through their C08-proved contracts. A counterexample is rebuilt with "
+         "the real class and replayed through marshal and parse.",
+    note="Trusted: z3, pyvc. Assumed, not decided: the third-party codecs (json, msgpack, cbor2, ubjson) and the batch "
+         "framing reproduce the marshalled list / dict / scalar structure -- so 'through each serializer', batching and "
+         "the binary flag are NOT decided (level 'other'). Classes under contract are listed in the evidence file; "
+         "the others are listed under not covered.",
+    technique="contract-based deductive verification: AST->VC round-trip lemma per class over the real marshal/parse, z3 strings + regex"),
+})
+
+CLAIMED.update({
  "C20": dict(category="other",
     text="Proved over assumed NaCl / JSON laws: KeyRing._get_box picks the box of this side's role under the covering "
          "(else default) key; encode returns None exactly without a box and otherwise only seal(box, JSON{uri,args,kwargs}, "
